@@ -87,3 +87,33 @@ Theorem C13_create_by_query : forall db h c q,
   end.
 Proof. exact create_by_query_refines_exact. Qed.
 Print Assumptions C13_create_by_query.
+
+(* ---- adequacy of the abstract specification S (Proofs/SpecAdequacyProofs.v): consequences of a_step alone, no store, model or refinement lemma ---- *)
+From Coq Require Import Permutation Sorted.
+From Clover Require Import HistoryProofs CompositeSpec CompositeProofs IndexIndepProofs AbstractSpecProofs SpecAdequacyProofs.
+Theorem C13_spec_catalog : forall c a, a_closed a = false ->
+  (* Create then Create: the second answers ECollExist and changes nothing *)
+  (forall t1 a1 t2 a2, a_step (OCreateCollection c) a t1 a1 -> a_step (OCreateCollection c) a1 t2 a2 ->
+     t2 = T_err ECollExist /\ a2 = a1) /\
+  (* after a successful Create the collection is there, empty and without indexes *)
+  (forall t1 a1 t2 a2, a_step (OCreateCollection c) a t1 a1 -> t1 = T_ok (TL []) ->
+     a_step (OHasCollection c) a1 t2 a2 ->
+     t2 = T_ok (Tbool true) /\ assoc c (a_db a1) = Some (mkSC [] [])) /\
+  (* Drop (whatever it answers) then HasCollection: false; then Create succeeds with an empty collection
+     without indexes *)
+  (forall t1 a1 t2 a2 t3 a3, a_step (ODropCollection c) a t1 a1 -> a_step (OHasCollection c) a1 t2 a2 ->
+     a_step (OCreateCollection c) a2 t3 a3 ->
+     t2 = T_ok (Tbool false) /\ a2 = a1 /\ t3 = T_ok (TL []) /\ assoc c (a_db a3) = Some (mkSC [] [])) /\
+  (* Drop answers ok exactly when the collection was there *)
+  (forall t1 a1, a_step (ODropCollection c) a t1 a1 ->
+     (t1 = T_ok (TL []) <-> assoc c (a_db a) <> None) /\ (t1 = T_err ECollNotExist <-> assoc c (a_db a) = None)).
+Proof. exact spec_catalog. Qed.
+Print Assumptions C13_spec_catalog.
+
+Theorem C13_spec_frame : forall o a t a', a_step o a t a' ->
+  match target o with
+  | Some c => forall c', c' <> c -> assoc c' (a_db a') = assoc c' (a_db a)
+  | None => a_db a' = a_db a
+  end.
+Proof. exact spec_frame. Qed.
+Print Assumptions C13_spec_frame.
